@@ -35,4 +35,59 @@ func (s *SweepingProvider) reprovideTimeForPrefix(prefix bitstr.Key) time.Durati
   modifies nothing
   ensures [slot-inside-the-cycle] 0 <= result && result < s.reprovideInterval
   ghost at assign(val): $val = val; $m = maxInt; assert(0 <= val && val < maxInt && 1 <= maxInt && maxInt <= 16777216)
+
+# Opaque callees: `modifies *` and no postcondition assumes nothing about them;
+# it only keeps the custody obligations below from depending on their bodies.
+func (s *SweepingProvider) closed() bool
+  modifies *
+func (s *SweepingProvider) selfAddrInfo() (peer.AddrInfo, bool)
+  modifies *
+func (s *SweepingProvider) reschedulePrefix(prefix bitstr.Key)
+  modifies *
+func (s *SweepingProvider) failedReprovide(prefix bitstr.Key, err error)
+  modifies *
+func (s *SweepingProvider) failedProvide(prefix bitstr.Key, keys []mh.Multihash, err error)
+  modifies *
+func (s *SweepingProvider) exploreSwarm(prefix bitstr.Key) (regions []keyspace.Region, coveredPrefix bitstr.Key, err error)
+  modifies *
+func (s *SweepingProvider) claimRegionReprovide(regions []keyspace.Region) []keyspace.Region
+  modifies *
+func (s *SweepingProvider) unscheduleSubsumedPrefixesNoLock(prefix bitstr.Key)
+  modifies *
+func (s *SweepingProvider) provideRegions(regions []keyspace.Region, addrInfo peer.AddrInfo, reprovide bool) bool
+  modifies *
+func (s *SweepingProvider) individualProvide(prefix bitstr.Key, keys []mh.Multihash, reprovide bool)
+  modifies *
+func (s *SweepingProvider) persistSuccessfulReprovide(prefix bitstr.Key)
+  modifies *
+
+# ---- chain of custody of a reprovide ------------------------------------------
+# The keys that are re-advertised for a region are the keys the keystore holds
+# under the prefix the exploration actually COVERED (which may be shorter than
+# the scheduled one after a region merge); everything that is unscheduled or
+# dequeued because "it is being reprovided now" lies under that same covered
+# prefix; the regions sent are the explored ones with exactly those keys
+# assigned, with the node's current addresses.
+func (s *SweepingProvider) batchReprovide(prefix bitstr.Key)
+  props C17
+  ghostvar $cov bitstr.Key = any
+  ghostvar $explored bool = false
+  ghostvar $keys []mh.Multihash = nil
+  ghostvar $ai peer.AddrInfo = any
+  ghostvar $regions []keyspace.Region = nil
+  modifies *
+  ghost at call(selfAddrInfo): $ai = $ret0
+  ghost at call(exploreSwarm): $cov = $ret1; $explored = ($ret2 == nil)
+  ghost at before call(exploreSwarm): assert($arg0 == old(prefix))
+  ghost at before call(Get)#0: assert(!$explored && $arg1 == old(prefix))
+  ghost at before call(Get)#1: assert($explored && $arg1 == $cov)
+  ghost at call(Get)#1: $keys = $ret0
+  ghost at before call(DequeueMatching): assert($explored && $arg0 == ite(len($cov) < len(old(prefix)), $cov, old(prefix)))
+  ghost at before call(Remove): assert($arg0 == ite(len($cov) < len(old(prefix)), $cov, old(prefix)))
+  ghost at before call(unscheduleSubsumedPrefixesNoLock): assert(held(s.scheduleLk) && $arg0 == ite(len($cov) < len(old(prefix)), $cov, old(prefix)))
+  ghost at before call(AssignKeysToRegions): assert($arg1 == $keys)
+  ghost at call(AssignKeysToRegions): $regions = $ret0
+  ghost at before call(provideRegions): assert($arg0 == $regions && $arg1 == $ai && $arg2)
+  ghost at before call(individualProvide): assert(!$explored && $arg0 == old(prefix) && $arg2)
 @*/
+
